@@ -32,6 +32,7 @@ func checkC18(c *Ctx) {
 		}
 		c18Check(c, p, m)
 		registrationStores(c, p, m)
+		regexpRuleList(c, p)
 	}
 	c.Floor["R18.1"] = 4
 	c.Floor["R18.2"] = 4
